@@ -12,19 +12,22 @@ pub fn prefixes(s: &Shape, from: usize, to: usize, skipper: bool) {
     let mut k = from;
     while k < to && k < total {
         let input = &bt.buf.b[..k];
-        match dlt_message(input, None, s.storage) {
+        let r = dlt_message(input, None, s.storage);
+        match &r {
             Err(DltParseError::IncompleteParse { needed }) => {
                 if let Some(n) = needed {
                     assert!(n.get() >= 1, "hint of zero bytes");
                     assert!(n.get() <= total - k, "hint larger than the number of missing bytes");
-                    kani::cover!(true, "incomplete with a hint");
                 }
+                kani::cover!(true, "prefix reported incomplete");
             }
             Err(_) => assert!(false, "proper prefix of a valid message rejected with a hard error"),
             Ok(_) => assert!(false, "proper prefix of a valid message parsed"),
         }
+        std::mem::forget(r); // drop glue of the (unreachable) message value is not the subject
         if skipper {
-            match dlt_consume_msg(input) {
+            let c = dlt_consume_msg(input);
+            match &c {
                 Ok((_, None)) => assert!(k == 0, "skipper reports 'no message' on a non-empty prefix"),
                 Ok((_, Some(_))) => assert!(false, "skipper skipped a message that is not completely there"),
                 Err(DltParseError::IncompleteParse { needed }) => {
@@ -35,6 +38,7 @@ pub fn prefixes(s: &Shape, from: usize, to: usize, skipper: bool) {
                 }
                 Err(_) => assert!(false, "skipper: hard error on a prefix of a valid message"),
             }
+            std::mem::forget(c);
         }
         k += 1;
     }
@@ -42,3 +46,72 @@ pub fn prefixes(s: &Shape, from: usize, to: usize, skipper: bool) {
 }
 
 // harnesses: gen_c05.rs (generated: every cut position of every shape, 3 cuts per harness)
+
+// ---- cuts inside the headers, at unit level ---------------------------------------
+use dlt_core::parse::verif_hooks as ph;
+
+/// Standard header of a message with the given literal HTYP and symbolic field
+/// data, cut at every length in [from, to): reported incomplete with a hint
+/// between 1 and the number of missing header bytes.
+fn std_header_prefixes(htyp: u8, from: usize, to: usize) {
+    let d: [u8; 14] = kani::any();
+    // ECU id field: "Ec" + two NULs (literal, see shapes.rs), the rest symbolic
+    let buf = [htyp, d[0], 0, 40, b'E', b'c', 0, 0, d[1], d[2], d[3], d[4], d[5], d[6], d[7], d[8]];
+    let std_len = crate::refcodec::headers_len(htyp & !crate::refcodec::HTYP_UEH);
+    let mut k = from;
+    while k < to && k < std_len {
+        let r = ph::standard_header(&buf[..k]);
+        match &r {
+            Err(nom::Err::Incomplete(n)) => {
+                if let nom::Needed::Size(x) = n {
+                    assert!(x.get() >= 1 && x.get() <= std_len - k, "hint larger than the missing header bytes");
+                }
+                kani::cover!(true, "header prefix incomplete");
+            }
+            _ => assert!(false, "prefix of a standard header not reported incomplete"),
+        }
+        std::mem::forget(r);
+        k += 1;
+    }
+}
+
+/// Extended header (literal MSIN / NOAR, ids "A" and "C" with zero padding, i.e.
+/// cuts inside the padding included), cut at every length in [from, to).
+fn ext_header_prefixes(from: usize, to: usize) {
+    let buf = [0x41u8, 0, b'A', 0, 0, 0, b'C', 0, 0, 0];
+    let mut k = from;
+    while k < to && k < 10 {
+        let r = ph::extended_header(&buf[..k]);
+        match &r {
+            Err(nom::Err::Incomplete(n)) => {
+                if let nom::Needed::Size(x) = n {
+                    assert!(x.get() >= 1 && x.get() <= 10 - k, "hint larger than the missing header bytes");
+                }
+                kani::cover!(true, "header prefix incomplete");
+            }
+            _ => assert!(false, "prefix of an extended header not reported incomplete"),
+        }
+        std::mem::forget(r);
+        k += 1;
+    }
+}
+
+macro_rules! c05_hdr {
+    ($name:ident, $body:expr) => {
+        #[kani::proof]
+        #[kani::unwind(20)]
+        #[kani::stub(std::fmt::format, crate::models::fmt_format_stub)]
+        #[kani::stub(core::str::from_utf8, crate::models::from_utf8_stub)]
+        fn $name() {
+            $body;
+        }
+    };
+}
+c05_hdr!(c05_hdr_std_min_0_4, std_header_prefixes(0x20, 0, 4));
+c05_hdr!(c05_hdr_std_all_0_4, std_header_prefixes(0x3d, 0, 4));
+c05_hdr!(c05_hdr_std_all_4_8, std_header_prefixes(0x3d, 4, 8));
+c05_hdr!(c05_hdr_std_all_8_12, std_header_prefixes(0x3d, 8, 12));
+c05_hdr!(c05_hdr_std_all_12_16, std_header_prefixes(0x3d, 12, 16));
+c05_hdr!(c05_hdr_std_weid_4_8, std_header_prefixes(0x26, 4, 8));
+c05_hdr!(c05_hdr_ext_0_5, ext_header_prefixes(0, 5));
+c05_hdr!(c05_hdr_ext_5_10, ext_header_prefixes(5, 10));
